@@ -106,6 +106,7 @@ Fixpoint wave (p : pt) (rho : env) (drop : list ident) {struct p} : bool :=
   | Ari inner _ _ => wave inner rho drop
   | Map inner m _ => wave inner (map_env rho m) drop
   | Ren inner r => wave inner rho (ren_drop r drop)
+  | ParT inner _ => wave inner rho drop
   | _ => false
   end.
 
@@ -126,6 +127,7 @@ Fixpoint obs_build (p : pt) (rho : env) (drop : list ident) {struct p} : list ob
       obs_build inner rho drop ++ (if wave inner rho drop then obs_r rho (sa ++ kept drop sc) else [])
   | Map inner m cs => obs_c rho cs ++ obs_build inner (map_env rho m) drop
   | Ren inner r => obs_build inner rho (ren_drop r drop)
+  | ParT inner owt => obs_build inner rho drop ++ (if wave inner rho drop then obs_f rho (kept drop owt) else [])
   | _ => []
   end.
 
@@ -138,6 +140,7 @@ Fixpoint obs_meas (p : pt) (rho : env) {struct p} : list ob :=
   | Ari inner _ _ => obs_meas inner rho
   | Map inner m _ => obs_meas inner (map_env rho m)
   | Ren inner _ => obs_meas inner rho
+  | ParT inner _ => obs_meas inner rho
   | _ => []
   end.
 
@@ -168,6 +171,7 @@ Fixpoint obs (p : pt) (rho : env) (drop : list ident) {struct p} : list ob :=
       end
   | Map inner m cs => obs_c rho cs ++ obs inner (map_env rho m) drop
   | Ren inner r => obs inner rho (ren_drop r drop)
+  | ParT inner owt => obs_f rho (kept drop owt) ++ obs inner rho drop
   end.
 
 (* is anything played (given that all obligations hold) *)
@@ -186,6 +190,7 @@ Fixpoint plays (p : pt) (rho : env) (drop : list ident) {struct p} : bool :=
       end
   | Map inner m _ => plays inner (map_env rho m) drop
   | Ren inner r => plays inner rho (ren_drop r drop)
+  | ParT inner _ => plays inner rho drop
   end.
 
 (* the visible constraints with the environment their node sees; the needed reads *)
@@ -242,6 +247,7 @@ Fixpoint atomic (p : pt) : bool :=
   | Ari inner _ _ => atomic inner
   | Map inner _ _ => atomic inner
   | Ren inner _ => atomic inner
+  | ParT inner _ => atomic inner
   | _ => false
   end.
 
@@ -263,6 +269,7 @@ Fixpoint wf (p : pt) : Prop :=
   | For body _ _ _ _ _ _ => wf body
   | Map inner m _ => subset (pnames inner) (map fst m) = true /\ wf inner
   | Ren inner _ => wf inner
+  | ParT inner _ => wf inner
   end.
 
 (* ---- the known deviation of the code: FunctionPT substitutes symbolically, a name without value that cancels in the
